@@ -118,7 +118,19 @@ pub fn gen(seed: u64, cases: usize, flavour: &str, path: &str) {
         let mut pending = 0u64;
         let mut date = 100i64;
         let mut qty = 0u64;
-        let len = if batchy { 3 + g.rng.below(6) } else { 5 + g.rng.below(60) };
+        let mut recent_px: Vec<f64> = Vec::new();
+        // one case in twelve leaves the ordinary regime: a long history (ids in the hundreds, a deep book), a dozen
+        // symbols, or magnitudes far from 1 (powers of two, so the grid stays exact)
+        let stress = if g.rng.chance(1, 12) { 1 + g.rng.below(3) } else { 0 };
+        g.stats.bump(match stress { 1 => "stress_long_history", 2 => "stress_many_symbols", 3 => "stress_magnitudes", _ => "ordinary_regime" });
+        // ten symbols, the lower-case twins of two of them, and the never-quoted one
+        let wide: Vec<String> = (0..10).map(|i| format!("S{i:02}")).chain(["s00".to_string(), "s01".to_string(), "ZZZ".to_string()]).collect();
+        let syms: Vec<&str> = if stress == 2 { wide.iter().map(|x| x.as_str()).collect() } else { SYMS.to_vec() };
+        let nsym = syms.len() - 1; // the last one is never quoted
+        let mag: f64 = if stress == 3 { *g.rng.pick(&[1073741824.0, 1.0 / 1048576.0, 1099511627776.0]) } else { 1.0 };
+        // magnitudes include the clock: epoch milliseconds, a quarter of a second apart
+        let (date_step, date_jitter) = if stress == 3 && g.rng.chance(1, 2) { date = 1_700_000_000_000; (250i64, 1u64) } else { (1i64, 3u64) };
+        let len = if stress == 1 && batchy { 30 + g.rng.below(40) } else if stress == 1 { 250 + g.rng.below(450) } else if batchy { 3 + g.rng.below(6) } else { 5 + g.rng.below(60) };
         for _ in 0..len {
             let roll = g.rng.below(10);
             if roll <= 4 {
@@ -131,6 +143,9 @@ pub fn gen(seed: u64, cases: usize, flavour: &str, path: &str) {
                     n
                 } else if g.rng.chance(1, 25) {
                     20 + g.rng.below(60)
+                } else if g.rng.chance(1, if thorough { 150 } else { 600 }) {
+                    // past the round capacities a buffer or a book may be given: 256, 1000, 1024
+                    *g.rng.pick(&[256, 257, 300, 1000, 1025, 1100])
                 } else {
                     1
                 };
@@ -146,18 +161,33 @@ pub fn gen(seed: u64, cases: usize, flavour: &str, path: &str) {
                     };
                     let kind = g.rng.below(3); // market, limit, stop
                     let t = kind * 2 + if side_sell { 0 } else { 1 };
-                    let sym = SYMS[if g.rng.chance(1, 15) { 3 } else { g.rng.below(3) as usize }];
+                    let sym = syms[if g.rng.chance(1, 15) { nsym } else { g.rng.below(nsym as u64) as usize }];
                     qty += 1;
-                    let sh = if dup { (1 + g.rng.below(3)) as f64 } else { qty as f64 + if g.rng.chance(1, 5) { 0.5 } else { 0.0 } };
-                    let sym = if dup { SYMS[g.rng.below(2) as usize] } else { sym };
-                    let px = if kind == 0 || g.rng.chance(1, 40) { None } else { Some(grid(&mut g.rng)) };
+                    let sh = (if dup { (1 + g.rng.below(3)) as f64 } else { qty as f64 + if g.rng.chance(1, 5) { 0.5 } else { 0.0 } }) * if stress == 3 { 1.0 / mag } else { 1.0 };
+                    let sym = if dup { syms[g.rng.below(2) as usize] } else { sym };
+                    // quantities far from the ordinary: dust, nine decimals, 2^52 (still pairwise distinct per case w.h.p.)
+                    let sh = if stress == 3 && g.rng.chance(1, 6) { *g.rng.pick(&[1e-16, 4e-9, 1.123456789, 4503599627370496.0, 987654321987.0]) * (1.0 + qty as f64 / 1024.0) } else { sh };
+                    let px = if kind == 0 || g.rng.chance(1, 40) {
+                        None
+                    } else if g.rng.chance(1, 8) {
+                        // decimal fractions that binary64 only approximates (0.1 + 0.2 is not 0.3)
+                        Some(*g.rng.pick(&[0.3, 0.1 + 0.2, 0.7, 0.1 * 7.0, 1.1, 1.0 + 0.1, 0.9, 1.0 - 0.1]) * mag)
+                    } else {
+                        Some(grid(&mut g.rng) * mag)
+                    };
+                    if let Some(p) = px {
+                        recent_px.push(p);
+                        if recent_px.len() > 8 {
+                            recent_px.remove(0);
+                        }
+                    }
                     if kind != 0 && px.is_none() {
                         g.stats.bump("priced_type_without_price");
                     }
                     // an order object may arrive with its public `order_id` already set (re-sent after a tick returned
                     // it, or decoded from JSON): the exchange must still stamp the next id
                     if g.rng.chance(1, 12) {
-                        let preset = g.rng.below(9);
+                        let preset = g.rng.below(9.max(next_id + 3));
                         g.line(&format!("I {} {} {} {} {}", t, sym, fb(sh), px_tok(&px), preset));
                         g.stats.bump("insert_with_preset_id");
                     } else {
@@ -173,10 +203,17 @@ pub fn gen(seed: u64, cases: usize, flavour: &str, path: &str) {
             } else {
                 let mut line = String::new();
                 let mut nq = 0;
-                for s in SYMS.iter().take(3) {
+                for s in syms.iter().take(nsym) {
                     if !g.rng.chance(1, 4) {
-                        let bid = grid(&mut g.rng);
-                        let ask = bid + g.rng.below(3) as f64 * 0.25;
+                        let mut bid = grid(&mut g.rng) * mag;
+                        let mut ask = bid + g.rng.below(3) as f64 * 0.25 * mag;
+                        // a quote that touches a recent limit / stop price, or misses it by one unit in the last place
+                        if !recent_px.is_empty() && g.rng.chance(1, 6) {
+                            let p = *g.rng.pick(&recent_px);
+                            let q = match g.rng.below(3) { 0 => p, 1 => f64::from_bits(p.to_bits() + 1), _ => f64::from_bits(p.to_bits() - 1) };
+                            if g.rng.chance(1, 2) { bid = q; if ask < bid { ask = bid; } } else { ask = q; if bid > ask { bid = ask; } }
+                            g.stats.bump("quote_within_one_ulp_of_a_resting_price");
+                        }
                         line += &format!(" {} {} {} {}", s, fb(bid), fb(ask), date);
                         nq += 1;
                     } else {
@@ -187,7 +224,7 @@ pub fn gen(seed: u64, cases: usize, flavour: &str, path: &str) {
                 g.stats.bump("tick");
                 next_id += pending;
                 pending = 0;
-                date += 1 + g.rng.below(3) as i64;
+                date += date_step * (1 + g.rng.below(date_jitter) as i64);
             }
         }
     }
